@@ -257,6 +257,17 @@ def emit(face, addr):
 
 def gen_sequence(rng, n):
     calls = []
+    if rng.random() < 0.12:
+        # a loop over several edges (and corners) with one geometry, then a second geometry for ONE of them
+        from_edges = [(0, 1), (1, 2), (2, 3), (3, 0), (4, 5), (5, 6), (6, 7), (7, 4), (0, 4), (1, 5), (2, 6), (3, 7)]
+        es = rng.sample(from_edges, rng.randint(2, 5))
+        for (a, b) in es:
+            calls.append(["project_edge", a, b, "ga"])
+        for c in rng.sample(range(8), rng.randint(0, 2)):
+            calls.append(["project_corner", c, "ga"])
+        a, b = rng.choice(es)
+        calls.append(["project_edge", b, a, "gb"])
+        return calls
     for _ in range(n):
         k = rng.random()
         if k < 0.3:
@@ -278,6 +289,15 @@ def gen_sequence(rng, n):
 def run_sequence_impl(calls):
     """Returns a canonical observation or ('error', class)."""
     op = new_loft()
+    # a label may be given as a string or as a list of strings; in half of the sequences (decided by the sequence itself,
+    # so that replays agree) every call naming a geometry is handed ONE list object per geometry, reused from call to call,
+    # as a user's loop over corner pairs would do: what one call does with it must not leak into another edge or corner
+    share = sum(len(str(x)) for c in calls for x in c) % 2 == 0
+    shared = {}
+
+    def lab(name):
+        return shared.setdefault(name, [name]) if share else name
+
     try:
         for c in calls:
             if c[0] == "set_patch":
@@ -285,9 +305,9 @@ def run_sequence_impl(calls):
             elif c[0] == "project_side":
                 op.project_side(c[1], c[2], edges=c[3], points=c[4])
             elif c[0] == "project_edge":
-                op.project_edge(c[1], c[2], c[3])
+                op.project_edge(c[1], c[2], lab(c[3]))
             elif c[0] == "project_corner":
-                op.project_corner(c[1], c[2])
+                op.project_corner(c[1], lab(c[2]))
         ob = observe(op)
     except GenError:
         raise
